@@ -84,6 +84,16 @@ def gen_case(rng) -> dict:
     return {"base": base, "lv": lv, "maps": maps, "init": init, "map_kinds": kinds}
 
 
+# minimised witnesses of repaired defects: they run first on every run (old behaviour back => VIOLATION with this replay)
+REGRESSION_CASES = [
+    # c05-zero-label-initial (fixes/C05-zero-label-initial.diff): amount landed in the stray variable 'c1__'
+    {"base": {"params": {"p20": 1}, "dpars": [], "vars": {"c1": 4}, "dvars": [], "rxns": []},
+     "lv": {"c1": 0}, "maps": {}, "init": {"c1": []}, "map_kinds": ["regression"]},
+    {"base": {"params": {"p20": 1}, "dpars": [], "vars": {"c1": 4, "c2": 1}, "dvars": [], "rxns": [("v40", "FProd", ["c1", "p20"], {"c1": -1, "c2": 1})]},
+     "lv": {"c1": 0, "c2": 1}, "maps": {"v40": [0]}, "init": {"c1": 0, "c2": 0}, "map_kinds": ["regression"]},
+]
+
+
 def exhaustive_cases(thorough: bool):
     """Every map of the right length over the available positions for small one-reaction networks."""
     shapes = [
@@ -221,7 +231,7 @@ def oracle_structure(case: dict, out, info: dict) -> list[tuple[str, str | None]
             continue
         names = L.iso_names(c, lv[c])
         own = {k: x for k, x in vars_.items() if k.split("__")[0] == c}
-        fid = "c05-zero-label-initial" if c in info["zero_init"] else None
+        fid = None  # (a compound with 0 label positions and a requested initial label was a finding; repaired)
         if sorted(own) != sorted(names):
             bad.append((f"{c} ({lv[c]} labels): variables {sorted(own)} are not exactly its isotopomers", fid))
             continue
@@ -230,8 +240,8 @@ def oracle_structure(case: dict, out, info: dict) -> list[tuple[str, str | None]
             continue
         want = init.get(c)
         positions = [] if want is None else ([want] if isinstance(want, int) else list(want))
-        if all(0 <= p < lv[c] for p in positions) and lv[c] > 0:
-            target = c + "__" + "".join("1" if i in positions else "0" for i in range(lv[c]))
+        if all(0 <= p < lv[c] for p in positions):
+            target = c + ("__" + "".join("1" if i in positions else "0" for i in range(lv[c])) if lv[c] > 0 else "")
             if own.get(target) != v:
                 bad.append((f"{c}: initial label requested at {positions} but {target} holds {own.get(target)} of {v}", fid))
     return bad
@@ -239,7 +249,7 @@ def oracle_structure(case: dict, out, info: dict) -> list[tuple[str, str | None]
 
 def oracle_dynamics(case: dict, model, info: dict, states: list[dict[str, int]]) -> list[tuple[str, str | None]]:
     """Summed isotopomer derivatives == base derivative at the totals (exact, integer states)."""
-    if info["short"] or info["outside"] or info["nonmass"] or info["unmapped_touch"] or info["zero_init"] or model is None:
+    if info["short"] or info["outside"] or info["nonmass"] or info["unmapped_touch"] or model is None:
         return []
     base, lv = case["base"], case["lv"]
     bm = L.build_base(base)
@@ -289,7 +299,7 @@ def corr_file(cases: list[str]) -> str:
         + defs
         + "\nDefinition cases : list iso_case := "
         + common.clist(f"case_{i}" for i in range(len(cases)))
-        + ".\nDefinition mismatches := filter_idx (fun c => negb (check_iso (ext_bit_of gen_label_facts) c)) cases.\n"
+        + ".\nDefinition mismatches := filter_idx (fun c => negb (check_iso (ext_bit_of gen_label_facts) (f_init_name gen_label_facts) c)) cases.\n"
         "Eval vm_compute in mismatches.\n"
     )
 
@@ -335,7 +345,7 @@ def check(run: Run) -> None:
     rng = common.rng_for(run.seed, "c05")
     known = {f["id"]: f for f in common.load_known_findings(PROP)}
 
-    cases = list(exhaustive_cases(thorough))
+    cases = [dict(c) for c in REGRESSION_CASES] + list(exhaustive_cases(thorough))
     for f in known.values():
         if "case" in f.get("witness", {}):
             cases.insert(0, f["witness"]["case"] | {"map_kinds": ["witness"]})
@@ -369,7 +379,7 @@ def check(run: Run) -> None:
                 rhs.append((st, o))
         bad = oracle_structure(case, out, info)
         dyn = oracle_dynamics(case, model, info, states) if out[0] == "ok" else []
-        if out[0] == "ok" and not (info["short"] or info["outside"] or info["nonmass"] or info["unmapped_touch"] or info["zero_init"]):
+        if out[0] == "ok" and not (info["short"] or info["outside"] or info["nonmass"] or info["unmapped_touch"]):
             dist["judged_dynamics"] += 1
         if info["outside"]:
             dist["outside_domain"] += 1
